@@ -40,6 +40,8 @@ def setup_paths():
 
 
 setup_paths()
+import warnings as _w
+_w.filterwarnings("ignore", category=RuntimeWarning)
 
 
 class Violation(Exception):
